@@ -21,31 +21,34 @@ import (
 )
 
 type Params struct {
-	N         int
-	Cuts      int
-	Fmts      []int
-	Codec     int
-	Ctl       bool // trailing control batch
-	Start     string
-	Version   sarama.KafkaVersion
-	FetchSz   int
-	FetchMax  int // Consumer.Fetch.Max
-	BPF       int
-	Buf       int
-	NParts    int
-	NBrokers  int
-	Faults    []string
-	Slow      bool
-	Gates     map[string]bool
-	RC        bool
-	Txn       []string // transactional log spec (C11): dA dB dN cA cB aA aB
-	AbOrder   int      // permutation index of the aborted index
-	Icpt      int
-	IcptPanic int // >0: the consumer interceptor at this (1-based) position panics after counting itself
-	CloseAny  bool
-	Move      bool
-	Append    bool
-	Base      int64 // first offset of the log (log start)
+	N          int
+	Cuts       int
+	Fmts       []int
+	Codec      int
+	Ctl        bool // trailing control batch
+	Start      string
+	Version    sarama.KafkaVersion
+	FetchSz    int
+	FetchMax   int // Consumer.Fetch.Max
+	BPF        int
+	Buf        int
+	NParts     int
+	NBrokers   int
+	Faults     []string
+	MetaFaults []string // metadata answer faults (leader-unavailable, unknown-topic, drop)
+	Slow       bool
+	Gates      map[string]bool
+	RC         bool
+	Txn        []string // transactional log spec (C11): dA dB dN cA cB aA aB
+	AbOrder    int      // permutation index of the aborted index
+	Icpt       int
+	IcptPanic  int // >0: the consumer interceptor at this (1-based) position panics after counting itself
+	CloseAny   bool
+	Move       bool
+	Append     bool
+	AppendPart int   // partition that receives the late record (app=k: partition k-1)
+	AppendMode int   // the app= value (3: partition 0 first, partition 1 after everything was delivered)
+	Base       int64 // first offset of the log (log start)
 }
 
 func atoi(v url.Values, k string, def int) int {
@@ -63,7 +66,7 @@ func Parse(v url.Values) (*Params, error) {
 	p := &Params{N: atoi(v, "n", 3), Cuts: atoi(v, "cuts", 0), Codec: atoi(v, "codec", 1), Ctl: atoi(v, "ctl", 0) == 1,
 		Start: v.Get("start"), FetchSz: atoi(v, "fsz", 0), FetchMax: atoi(v, "fmax", 0), BPF: atoi(v, "bpf", 0), Buf: atoi(v, "buf", 0), NParts: atoi(v, "np", 1),
 		NBrokers: atoi(v, "nb", 1), Slow: atoi(v, "slow", 0) == 1, RC: v.Get("iso") == "rc", AbOrder: atoi(v, "abo", 0), Icpt: atoi(v, "icpt", 0), IcptPanic: atoi(v, "icptpanic", 0),
-		CloseAny: atoi(v, "closeany", 0) == 1, Move: atoi(v, "move", 0) == 1, Append: atoi(v, "app", 0) == 1, Base: int64(atoi(v, "base", 0))}
+		CloseAny: atoi(v, "closeany", 0) == 1, Move: atoi(v, "move", 0) == 1, Append: atoi(v, "app", 0) >= 1, AppendPart: max(atoi(v, "app", 0)-1, 0) % 2, AppendMode: atoi(v, "app", 0), Base: int64(atoi(v, "base", 0))}
 	if p.Start == "" {
 		p.Start = "old"
 	}
@@ -89,6 +92,9 @@ func Parse(v url.Values) (*Params, error) {
 	}
 	if s := v.Get("faults"); s != "" {
 		p.Faults = strings.Split(s, ",")
+	}
+	if s := v.Get("mfaults"); s != "" {
+		p.MetaFaults = strings.Split(s, ",")
 	}
 	if s := v.Get("txn"); s != "" {
 		p.Txn = strings.Split(s, ",")
@@ -370,7 +376,7 @@ type rig struct {
 	closing   bool
 	closed    bool
 	moved     bool
-	appended  bool
+	appended  int
 	icptLog   map[string]int
 	icptSeq   []string
 	startOff  []int64
@@ -389,6 +395,7 @@ func run(c *gx.Ctl, p *Params) *gx.Outcome {
 	}
 	cl.AddTopic("t", leaders...)
 	cl.FetchFaults = p.Faults
+	cl.MetaFaults = p.MetaFaults
 	cl.BatchesPerFetch = p.BPF
 	if p.AbOrder > 0 {
 		cl.AbortedOrder = func(ab [][2]int64) [][2]int64 { return permute(ab, p.AbOrder) }
@@ -662,12 +669,28 @@ func (r *rig) actors() []gx.Actor {
 		}}}})
 		allDone = false
 	}
-	if p.Append && !r.appended {
-		acts = append(acts, gx.Actor{Label: "env:append", Rank: 3, Variants: []gx.Variant{{Do: func() {
+	// late records: app=1 one record for partition 0, app=2 for partition 1 (any time); app=3: first partition 0, and once
+	// everything (including that record) has been delivered, partition 1 - "after one partition has recovered from its
+	// trouble, its sibling receives new data"
+	appendTo := -1
+	switch {
+	case !p.Append:
+	case p.AppendMode == 3 && r.appended == 0:
+		appendTo = 0
+	case p.AppendMode == 3 && r.appended == 1 && !anyUndelivered && len(r.pcs) > 1 && (!p.Move || r.moved):
+		appendTo = 1
+	case p.AppendMode != 3 && r.appended == 0:
+		appendTo = p.AppendPart
+	}
+	if p.Append && r.appended < 1+p.AppendMode/3 {
+		allDone = false
+	}
+	if appendTo >= 0 {
+		acts = append(acts, gx.Actor{Label: fmt.Sprintf("env:append%s", map[bool]string{true: "", false: fmt.Sprintf(":p%d", appendTo)}[p.AppendMode != 3]), Rank: 3, Variants: []gx.Variant{{Do: func() {
 			r.mu.Lock()
-			r.appended = true
-			part := r.cl.Part("t", 0)
-			st := r.pcs[0]
+			r.appended++
+			part := r.cl.Part("t", int32(appendTo))
+			st := r.pcs[appendTo]
 			off := part.HighWaterMark()
 			rec := recAt(off)
 			b := &simkafka.StoredBatch{Base: off, Magic: 2, PID: -1, Epoch: -1, FirstSeq: -1, Recs: []simkafka.StoredRec{rec}}
@@ -680,7 +703,12 @@ func (r *rig) actors() []gx.Actor {
 			st.want = append(st.want, w)
 			r.mu.Unlock()
 		}}}})
-		allDone = false
+	}
+	if p.CloseAny && !allDone && len(acts) == 0 && len(r.c.Parked()) == 0 && len(r.cl.AnswerableKinds()) == 0 && r.c.Trailing("tick:") < 3 {
+		// with close enabled at every point the execution never goes idle, so fake time would never pass and
+		// nothing that waits for a back-off (a failed re-dispatch, a retried subscription) would ever be
+		// reached: when close is the only thing left to do, letting the back-off expire comes first
+		acts = append(acts, gx.Actor{Label: "tick:backoff", Rank: 3, Variants: []gx.Variant{{Do: func() { time.Sleep(60 * time.Millisecond) }}}})
 	}
 	if allDone || p.CloseAny {
 		acts = append(acts, gx.Actor{Label: "close", Rank: 4, Variants: []gx.Variant{{Do: r.doClose}}})
